@@ -78,6 +78,23 @@ type ScenarioSpec struct {
 	Src    string
 }
 
+type CallGhost struct {
+	Name   string
+	Callee string
+	Ord    int
+	Res    int
+	Fi     *FuncInfo
+}
+
+func (c *Contract) ghostSpec(name string) *CallGhost {
+	for _, g := range c.CallGhosts {
+		if g.Name == name {
+			return g
+		}
+	}
+	return nil
+}
+
 type LoopSpec struct {
 	Index      string
 	Invariants []*Clause
@@ -98,11 +115,15 @@ type Contract struct {
 	Splits    []*SplitSpec
 	Families  []*FamilySpec
 	Scenarios []*ScenarioSpec
+	CallGhosts []*CallGhost
 	SplitCalls []*SplitCall
 	Cuts      []*CutSpec
 	Grid      *[2]int
 	GridLabel string
 	Inline    bool
+	Abstract  bool // the general contract is an abstraction; only the scenarios are executed on the body
+	ThoroughOnly bool // expensive symbolic contract: thorough tier only
+	Summary   bool // result as a term of the parameters, exported to the contract language as fn_<key>
 	Trusted   bool
 	Loops     map[int]*LoopSpec
 	Where     string
@@ -128,7 +149,7 @@ type Lemma struct {
 }
 
 var clauseKW = map[string]bool{"pred": true, "lemma": true, "func": true, "requires": true, "ensures": true, "modifies": true,
-	"split": true, "family": true, "scenario": true, "splitcall": true, "cut": true, "grid": true, "inline": true, "trusted": true, "loop": true, "invariant": true}
+	"split": true, "family": true, "scenario": true, "callghost": true, "splitcall": true, "cut": true, "grid": true, "inline": true, "trusted": true, "summary": true, "abstract": true, "thorough": true, "loop": true, "invariant": true}
 
 var reLabels = regexp.MustCompile(`^\[([A-Za-z0-9_,\- ]+)\]`)
 
@@ -320,6 +341,22 @@ func (u *Universe) parseContractFile(alias, fname, text string) error {
 					sp.Exprs = append(sp.Exprs, e)
 				}
 				cur.Splits = append(cur.Splits, sp)
+			case "callghost": // callghost NAME := Callee#n[.k]
+				i := strings.Index(rc.text, ":=")
+				if i < 0 {
+					return fail(fmt.Errorf("want: callghost NAME := Callee#n"))
+				}
+				tgt := strings.TrimSpace(rc.text[i+2:])
+				res := 0
+				if j := strings.LastIndex(tgt, "."); j > strings.Index(tgt, "#") && strings.Index(tgt, "#") >= 0 {
+					res, _ = strconv.Atoi(tgt[j+1:])
+					tgt = tgt[:j]
+				}
+				callee, ord, err := parseOrd(tgt)
+				if err != nil {
+					return fail(err)
+				}
+				cur.CallGhosts = append(cur.CallGhosts, &CallGhost{Name: strings.TrimSpace(rc.text[:i]), Callee: callee, Ord: ord, Res: res})
 			case "scenario":
 				sc, err := parseScenario(rc.text)
 				if err != nil {
@@ -390,6 +427,12 @@ func (u *Universe) parseContractFile(alias, fname, text string) error {
 				cur.Grid = &[2]int{lo, hi}
 			case "inline":
 				cur.Inline = true
+			case "summary":
+				cur.Summary = true
+			case "abstract":
+				cur.Abstract = true
+			case "thorough":
+				cur.ThoroughOnly = true
 			case "trusted":
 				cur.Trusted = true
 			case "loop": // loop 0 index i:
